@@ -49,3 +49,46 @@ Definition a_step (s : ast) (o : aop) : ast :=
 
 Definition a_init (todo0 : N) : ast := mkA 0 false false TRunnable todo0 0 0.
 Definition a_run (todo0 : N) (ops : list aop) : ast := fold_left a_step ops (a_init todo0).
+
+(* ================= both directions: readable() / writable() waits that may be abandoned =================
+   One task waits on one adapter for either direction; a pending wait may be abandoned (its future dropped: select!,
+   timeouts) and followed by a wait for the other direction. IoDispatcher stores the readiness of the last event
+   (`last_readiness`, consumed by the next poll of a wait), the waker, and the interest; register_waker stores interest and
+   waker and ALWAYS re-registers the one-shot poller entry with that interest. *)
+Inductive dir := DR | DW.
+Definition dir_eqb (a b : dir) : bool := match a, b with DR, DR | DW, DW => true | _, _ => false end.
+
+Record wst := mkW2 {
+  kr : bool; kw : bool;            (* the kernel: the fd is readable / writable now *)
+  lr : bool; lw : bool;            (* IoDispatcher.last_readiness *)
+  parmed : bool; pint : dir;       (* the poller's one-shot entry: armed, and for which interest *)
+  wk : bool;                       (* IoDispatcher.waker is Some *)
+  susp : option dir;               (* the task is suspended in a wait for that direction *)
+  woken : bool;                    (* the task's waker was called since the task last ran *)
+  wout : list N }.                 (* observations, newest first: 1 Ready / 0 Pending per poll, 3 / 2 for a dispatch that did / did not wake *)
+
+Inductive wop :=
+| WPoll (d : dir) (stay : bool)    (* the task polls a readable()/writable() future; on Pending it stays suspended in it or abandons it *)
+| WEnvR (b : bool) | WEnvW (b : bool)   (* the fd's readiness changes *)
+| WDispatch.
+
+Definition kready (s : wst) (d : dir) : bool := match d with DR => kr s | DW => kw s end.
+
+Definition w_step (s : wst) (o : wop) : wst :=
+  match o with
+  | WPoll d stay =>
+      (* readiness() takes last_readiness (and resets it) *)
+      let ready := match d with DR => lr s | DW => lw s end in
+      if ready then mkW2 (kr s) (kw s) false false (parmed s) (pint s) (wk s) None false (1 :: wout s)
+      else mkW2 (kr s) (kw s) false false true d true (if stay then Some d else None) false (0 :: wout s)
+  | WEnvR b => mkW2 b (kw s) (lr s) (lw s) (parmed s) (pint s) (wk s) (susp s) (woken s) (wout s)
+  | WEnvW b => mkW2 (kr s) b (lr s) (lw s) (parmed s) (pint s) (wk s) (susp s) (woken s) (wout s)
+  | WDispatch =>
+      if parmed s && kready s (pint s) then
+        (* the one-shot entry fires and is spent; process_events stores the readiness and wakes the stored waker *)
+        mkW2 (kr s) (kw s) (dir_eqb (pint s) DR) (dir_eqb (pint s) DW) false (pint s) false (susp s)
+             (woken s || wk s) ((if wk s then 3 else 2) :: wout s)
+      else mkW2 (kr s) (kw s) (lr s) (lw s) (parmed s) (pint s) (wk s) (susp s) (woken s) (2 :: wout s)
+  end.
+Definition w_init : wst := mkW2 false true false false false DR false None false [].
+Definition w_run (ops : list wop) : wst := fold_left w_step ops w_init.
